@@ -1,3 +1,172 @@
-pub fn main(_args: &[String]) {
-    unimplemented!()
+//! `replayer dom <scenario.json>`: rebuild concrete WeakDoms, run one real operation, dump what the public API shows.
+//!
+//! scenario: { "doms": [ { "root": "<hex>", "instances": [ {"ref","parent","children":[..],"name","class",
+//!             "props": [[key, variant-json], ..]} ] } ],
+//!             "op": "...", "args": {...} }
+use std::collections::BTreeMap;
+use std::str::FromStr;
+
+use ahash::AHashMap;
+use rbx_dom_weak::{Instance, InstanceBuilder, WeakDom};
+use rbx_types::{Ref, UniqueId, Variant};
+use serde_json::{json, Value};
+
+fn r(v: &Value) -> Ref {
+    Ref::from_str(v.as_str().expect("ref string")).expect("ref hex")
+}
+
+fn variant(v: &Value) -> Variant {
+    // {"Ref": hex} | {"UniqueId": [index, time, random]} | {"Int32": n}
+    let (k, x) = v.as_object().unwrap().iter().next().unwrap();
+    match k.as_str() {
+        "Ref" => Variant::Ref(r(x)),
+        "UniqueId" => {
+            let a = x.as_array().unwrap();
+            Variant::UniqueId(UniqueId::new(
+                a[0].as_u64().unwrap() as u32,
+                a[1].as_u64().unwrap() as u32,
+                a[2].as_i64().unwrap(),
+            ))
+        }
+        "Int32" => Variant::Int32(x.as_i64().unwrap() as i32),
+        other => panic!("replayer: unsupported variant {}", other),
+    }
+}
+
+fn dump_variant(v: &Variant) -> Value {
+    match v {
+        Variant::Ref(x) => json!({ "Ref": x.to_string() }),
+        Variant::UniqueId(u) => json!({"UniqueId": [u.index(), u.time(), u.random()]}),
+        Variant::Int32(n) => json!({ "Int32": n }),
+        other => json!({ "Other": format!("{:?}", other) }),
+    }
+}
+
+fn build_dom(d: &Value) -> WeakDom {
+    let mut map: AHashMap<Ref, Instance> = AHashMap::new();
+    for n in d["instances"].as_array().unwrap() {
+        let mut props = rbx_dom_weak::UstrMap::default();
+        for p in n["props"].as_array().unwrap() {
+            props.insert(rbx_dom_weak::ustr(p[0].as_str().unwrap()), variant(&p[1]));
+        }
+        let inst = Instance::verif_raw(
+            r(&n["ref"]),
+            r(&n["parent"]),
+            n["children"].as_array().unwrap().iter().map(r).collect(),
+            n["name"].as_str().unwrap().to_string(),
+            rbx_dom_weak::ustr(n["class"].as_str().unwrap()),
+            props,
+        );
+        map.insert(r(&n["ref"]), inst);
+    }
+    WeakDom::from_raw(r(&d["root"]), map)
+}
+
+fn build_builder(b: &Value) -> InstanceBuilder {
+    let mut out = InstanceBuilder::new(b["class"].as_str().unwrap())
+        .with_referent(r(&b["ref"]))
+        .with_name(b["name"].as_str().unwrap());
+    for p in b["props"].as_array().unwrap() {
+        out = out.with_property(p[0].as_str().unwrap(), variant(&p[1]));
+    }
+    for c in b["children"].as_array().unwrap() {
+        out = out.with_child(build_builder(c));
+    }
+    out
+}
+
+/// Which of the given ids does the DOM consider taken?  Observed through the public API only: a probe instance
+/// carrying the id is inserted under the root; the id is regenerated iff the DOM's bookkeeping holds it.
+fn probe_uids(dom: &mut WeakDom, probes: &[Value]) -> Vec<bool> {
+    let root = dom.root_ref();
+    let mut out = vec![];
+    for p in probes {
+        let a = p.as_array().unwrap();
+        let u = UniqueId::new(a[0].as_u64().unwrap() as u32, a[1].as_u64().unwrap() as u32, a[2].as_i64().unwrap());
+        let r = dom.insert(root, InstanceBuilder::new("UidProbe").with_property("UniqueId", u));
+        out.push(dom.get_unique_id(r) != Some(u));
+    }
+    out
+}
+
+fn dump_all(mut dom: WeakDom, probes: &[Value]) -> (Value, Vec<bool>) {
+    // descendants of the root, through the real iterator
+    let root = dom.root_ref();
+    let desc: Vec<String> = if dom.get_by_ref(root).is_some() {
+        dom.descendants().take(10_000).map(|i| i.referent().to_string()).collect()
+    } else {
+        vec![]
+    };
+    // hidden bookkeeping observed through probes (adds "UidProbe" instances, filtered out of the dump below)
+    let taken = if dom.get_by_ref(root).is_some() { probe_uids(&mut dom, probes) } else { vec![] };
+    let (root_ref, map) = dom.into_raw();
+    let probe_refs: Vec<Ref> = map.iter().filter(|(_, i)| i.class.as_str() == "UidProbe").map(|(k, _)| *k).collect();
+    let mut insts = BTreeMap::new();
+    for (k, inst) in map.iter() {
+        if probe_refs.contains(k) {
+            continue;
+        }
+        let mut props: Vec<(String, Value)> = inst
+            .properties
+            .iter()
+            .map(|(pk, pv)| (pk.to_string(), dump_variant(pv)))
+            .collect();
+        props.sort_by(|a, b| a.0.cmp(&b.0));
+        insts.insert(
+            k.to_string(),
+            json!({
+                "referent": inst.referent().to_string(),
+                "parent": inst.parent().to_string(),
+                "children": inst.children().iter().filter(|c| !probe_refs.contains(c)).map(|c| c.to_string()).collect::<Vec<_>>(),
+                "name": inst.name,
+                "class": inst.class.to_string(),
+                "props": props,
+            }),
+        );
+    }
+    (json!({"root": root_ref.to_string(), "instances": insts, "descendants": desc}), taken)
+}
+
+pub fn main(args: &[String]) {
+    let text = std::fs::read_to_string(&args[0]).expect("scenario file");
+    let sc: Value = serde_json::from_str(&text).expect("scenario json");
+    let mut doms: Vec<WeakDom> = sc["doms"].as_array().unwrap().iter().map(build_dom).collect();
+    let a = &sc["args"];
+    let op = sc["op"].as_str().unwrap();
+    let mut result: Vec<String> = vec![];
+    match op {
+        "destroy" => doms[0].destroy(r(&a["a"])),
+        "transfer_within" => doms[0].transfer_within(r(&a["a"]), r(&a["b"])),
+        "insert" => {
+            let b = build_builder(&a["builder"]);
+            result.push(doms[0].insert(r(&a["a"]), b).to_string());
+        }
+        "transfer" => {
+            let (s, d) = doms.split_at_mut(1);
+            s[0].transfer(r(&a["a"]), &mut d[0], r(&a["b"]));
+        }
+        "clone_within" => result.push(doms[0].clone_within(r(&a["a"])).to_string()),
+        "clone_into_external" => {
+            let (s, d) = doms.split_at_mut(1);
+            result.push(s[0].clone_into_external(r(&a["a"]), &mut d[0]).to_string());
+        }
+        "clone_multiple_into_external" => {
+            let refs: Vec<Ref> = a["refs"].as_array().unwrap().iter().map(r).collect();
+            let (s, d) = doms.split_at_mut(1);
+            for x in s[0].clone_multiple_into_external(&refs, &mut d[0]) {
+                result.push(x.to_string());
+            }
+        }
+        other => panic!("replayer: unknown op {}", other),
+    }
+    let empty = vec![];
+    let probes = sc["probe_uids"].as_array().unwrap_or(&empty);
+    let mut out: Vec<Value> = vec![];
+    let mut taken: Vec<Vec<bool>> = vec![];
+    for d in doms.into_iter() {
+        let (v, t) = dump_all(d, probes);
+        out.push(v);
+        taken.push(t);
+    }
+    println!("{}", json!({"result": result, "doms": out, "uid_taken": taken}));
 }
